@@ -204,6 +204,8 @@ def trace_moves(bct, case, hierarchy=False, t=10.0):
     """Re-run the real routine under sys.settrace and list the moves it made as (sweep number, node, target slot).
     No change to /repo is needed: the tracer reads the locals at the statement that relabels the node."""
     code, lines = _move_lines(getattr(bct, case['routine']))
+    if not lines:
+        raise RuntimeError('no statement of the form `ci[u] = mb + 1` found in %s: the source was renamed, moves cannot be traced' % case['routine'])
     rec = Rec2(case['seed'])
     moves = []
 
@@ -222,6 +224,15 @@ def trace_moves(bct, case, hierarchy=False, t=10.0):
     finally:
         sys.settrace(None)
     return st, out, moves
+
+
+def _trace_task(case):
+    """(status, moves) of one re-run under the tracer; picklable for pmap"""
+    try:
+        st, out, moves = trace_moves(import_bct(), case, hierarchy=case['routine'] in HIER, t=30.0)
+        return st, moves
+    except Exception as e:  # noqa
+        return 'trace-error: %r' % (e,), []
 
 
 def trace_spectral(bct, case, t=10.0):
@@ -256,7 +267,7 @@ def trace_spectral(bct, case, t=10.0):
     return st, out, rec, dec
 
 
-def invoke(bct, case, seed, ci0, hierarchy=False, t=6.0, rec=None):
+def invoke(bct, case, seed, ci0, hierarchy=False, t=6.0, rec=None, retry=None):
     r = case['routine']; A = np.array(case['W'], dtype=float); g = float(Fr(case['gamma']))
     if case.get('scale'):
         A = A * 2.0 ** case['scale']          # exact: power of two
@@ -265,26 +276,30 @@ def invoke(bct, case, seed, ci0, hierarchy=False, t=6.0, rec=None):
     elif case.get('variant') == 'fortran':
         A = np.asfortranarray(A)
     rec = rec if rec is not None else Rec2(seed)
+    if retry is None:
+        # in-domain calls are expected to return: one wall-clock hit is re-tried with 10x the budget before it counts;
+        # the malformed stream may legitimately spin, no retry there
+        retry = 0 if case.get('malformed') else 10
     ci = None if ci0 is None else np.array(ci0, dtype=int)
     f = getattr(bct, r)
     if r == 'community_louvain':
         o = case['opt']
         B = o if o != 'custom' else [[float(Fr(x)) for x in row] for row in case['B']]
-        st, out = call(f, A, gamma=g, ci=ci, B=B, seed=rec, t=t)
+        st, out = call(f, A, gamma=g, ci=ci, B=B, seed=rec, t=t, retry=retry)
     elif r in ('modularity_louvain_und', 'modularity_louvain_dir'):
-        st, out = call(f, A, gamma=g, hierarchy=hierarchy, seed=rec, t=t)
+        st, out = call(f, A, gamma=g, hierarchy=hierarchy, seed=rec, t=t, retry=retry)
     elif r == 'modularity_louvain_und_sign':
-        st, out = call(f, A, gamma=g, qtype=case['opt'], seed=rec, t=t)
+        st, out = call(f, A, gamma=g, qtype=case['opt'], seed=rec, t=t, retry=retry)
     elif r in ('modularity_finetune_und', 'modularity_finetune_dir'):
-        st, out = call(f, A, ci=ci, gamma=g, seed=rec, t=t)
+        st, out = call(f, A, ci=ci, gamma=g, seed=rec, t=t, retry=retry)
     elif r == 'modularity_finetune_und_sign':
-        st, out = call(f, A, qtype=case['opt'], gamma=g, ci=ci, seed=rec, t=t)
+        st, out = call(f, A, qtype=case['opt'], gamma=g, ci=ci, seed=rec, t=t, retry=retry)
     elif r == 'modularity_probtune_und_sign':
-        st, out = call(f, A, qtype=case['opt'], gamma=g, ci=ci, p=float(Fr(case['p'])), seed=rec, t=t)
+        st, out = call(f, A, qtype=case['opt'], gamma=g, ci=ci, p=float(Fr(case['p'])), seed=rec, t=t, retry=retry)
     elif r in ('modularity_und', 'modularity_dir'):
-        st, out = call(f, A, gamma=g, kci=ci, t=t)
+        st, out = call(f, A, gamma=g, kci=ci, t=t, retry=retry)
     elif r == 'modularity_und_sign':
-        st, out = call(f, A, ci, qtype=case['opt'], t=t)
+        st, out = call(f, A, ci, qtype=case['opt'], t=t, retry=retry)
     else:
         raise ValueError(r)
     return st, out, rec
@@ -324,7 +339,13 @@ def run_case(case):
         sc = dict(case, routine=sf['routine'], opt=sf.get('opt'), ci0=None); sc.pop('start_from')
         st0, out0, _ = invoke(bct, sc, sf['seed'], None, hierarchy=False)
         if st0 != 'ok' or not labels_ok(out0[0], n):
+            # the routine that was to provide the start failed on an in-domain input: judged, attributed to that routine
             res['status'] = 'start-' + st0
+            sc['seed'] = sf['seed']
+            if st0 == 'exc':
+                F.append(('raises', {'exception': out0, 'case_of_source': sc}, cond_of(sc)))
+            elif st0 == 'ok':
+                F.append(('labels-1..k', {'ci': repr(out0[0])[:200], 'case_of_source': sc}, cond_of(sc, 1)))
             return res
         case = dict(case); case.pop('start_from')
         case['ci0'] = [int(x) for x in np.asarray(out0[0]).tolist()]
@@ -715,7 +736,7 @@ def gen_cases(rs, tier, routines=None):
 
     for (r, opt) in variants:
         # (a) every set partition of a few small graphs as the start (routines that take one); singletons otherwise
-        nsmall = (6 if not big else 120)
+        nsmall = (6 if not big else 80)
         for _ in range(nsmall):
             n = int(rs.choice([3, 4, 4, 5, 5]))
             A = graph_for(r, n, opt)
@@ -732,7 +753,7 @@ def gen_cases(rs, tier, routines=None):
                 for g in GAMMAS:
                     add(r, A, opt, None, gamma=g, **extra)
         # (b) random larger graphs, random starts
-        nrand = (60 if not big else 2500)
+        nrand = (60 if not big else 1600)
         for _ in range(nrand):
             n = int(rs.randint(4, 13))
             A = graph_for(r, n, opt)
@@ -753,7 +774,7 @@ def gen_cases(rs, tier, routines=None):
         if r not in TAKES_CI or r == 'modularity_probtune_und_sign' or opt == 'custom':
             continue
         srcs = cross_sources(r, opt)
-        ntr = (6 if r in SIGN else 3) if not big else 40
+        ntr = (6 if r in SIGN else 3) if not big else 25
         for src in srcs:
             for g in CROSS_GAMMAS:
                 for _ in range(ntr):
@@ -778,7 +799,7 @@ def gen_cases(rs, tier, routines=None):
     for (r, opt) in variants:
         if opt == 'potts':
             continue                      # requires a 0/1 matrix
-        ntr = (10 if r == 'community_louvain' else 3) if not big else 60
+        ntr = (10 if r == 'community_louvain' else 3) if not big else 40
         for e in SCALES:
             if r == 'modularity_louvain_dir' and e < 0:
                 continue      # open finding D6 is accepted only where the as-written model reproduces the run, which needs the replay
@@ -803,7 +824,7 @@ def gen_cases(rs, tier, routines=None):
     for (r, opt) in variants:
         if not ((r == 'community_louvain' and opt == 'modularity') or r in ('modularity_finetune_dir', 'modularity_finetune_und', 'modularity_louvain_und')):
             continue
-        for _ in range((160 if r == 'community_louvain' else 12) if not big else 800):
+        for _ in range((160 if r == 'community_louvain' else 12) if not big else 500):
             n = int(rs.randint(5, 13)); wmax = int(rs.choice([1, 3, 5])); dens = float(rs.choice([.3, .5, .7]))
             if r in UND:
                 A = g_und(rs, n, dens, wmax)
@@ -909,7 +930,13 @@ def run_check(ck, preds):
     if ck.tier == 'thorough' and ok:
         ck.leanchecker(['BctVerif.Props.' + pid, 'BctVerif.Model.Modularity'])
     if ck.replay:
-        cases = [json.load(open(ck.replay))['case']['case']]
+        rp = json.load(open(ck.replay))
+        if 'case' in rp:
+            cases = [rp['case']['case']]
+        else:
+            # a `no-failing-input-found` replay: re-run the cases named in the broken correspondence entries (all, if none is named)
+            cases = [b['detail']['case'] for b in rp.get('no_longer_checks', [])
+                     if isinstance(b.get('detail'), dict) and isinstance(b['detail'].get('case'), dict)] or gen_cases(ck.rs, ck.tier)
     else:
         cases = gen_cases(ck.rs, ck.tier)
     results = pmap(run_case, cases)
@@ -944,7 +971,7 @@ def run_check(ck, preds):
                 if c['routine'] == 'modularity_louvain_dir':
                     pending.append((n_, pred, d, cond))
                 else:
-                    ck.violation(c['routine'], pred, d, cond)
+                    ck.violation(cond.get('routine', c['routine']), pred, d, cond)
         if r['status'] != 'ok' or not r['levels'] and c['routine'] not in HIER:
             continue
         failed = {p for p, _, _ in r['fails']}
@@ -960,6 +987,8 @@ def run_check(ck, preds):
                 qlines.append(q_line(c, c['ci0'] if (c['routine'] in GIVEN and c.get('ci0') is not None) else ci)); qidx.append((n_, h))
         if c.get('start_origin'):
             ck.count('cross_refinement_cases'); ck.count('cross_from:' + c['start_origin'].rsplit(':', 1)[0])
+        if r.get('oracle') is not None and any(t is None for t in r['oracle']):
+            ck.corr_break('Modularity spectral trace incomplete (a recur call did not return) for bct.' + c['routine'], {'case': c, 'oracle': r['oracle']})
         if r.get('oracle') is not None and all(t is not None for t in r['oracle']):
             # spectral path: the model bisects with the recorded eigen-solver decisions
             slines.append('spectral kind=%s n=%d W=%s gamma=%s oracle=%s' % (kind_of(c), len(c['W']), rat_list(c['W']), c['gamma'], ','.join(r['oracle']) or '-'))
@@ -1047,20 +1076,20 @@ def run_check(ck, preds):
             # node went to a maximiser of the exact gain above the threshold, each unmoved node had no gain above it.  Then
             # the only difference to the first-maximum replay is the choice among exact ties (`cert` of them); anything else
             # is a correspondence break.
-            bct = import_bct()
+            traced = pmap(_trace_task, [cases[n_] for n_, _, _ in diverged])       # every divergent run, no cap
             glines, gidx = [], []
-            for n_, v, o in diverged[:80]:
+            tstat = {n_: st for (n_, _, _), (st, _) in zip(diverged, traced)}
+            for (n_, v, o), (st, moves) in zip(diverged, traced):
                 c, r = cases[n_], results[n_]
-                st, out, moves = trace_moves(bct, c, hierarchy=c['routine'] in HIER)
                 if st != 'ok':
                     continue
-                glines.append(replay_line(c, r) + ' guide=' + (','.join('%d:%d:%d' % m for m in moves) or '-')); gidx.append(n_)
-            gouts = dict(zip(gidx, run_driver('Modularity', glines))) if glines else {}
+                glines.append(replay_line(c, r) + ' guide=' + (','.join('%d:%d:%d' % tuple(m) for m in moves) or '-')); gidx.append(n_)
+            gouts = dict(zip(gidx, run_driver_par('Modularity', glines))) if glines else {}
             tie_div = {}
             for n_, v, o in diverged:
                 c, r = cases[n_], results[n_]
                 go = gouts.get(n_)
-                gv, gd = verdict_of(c, r, go) if go is not None else ('not-traced', {})
+                gv, gd = verdict_of(c, r, go) if go is not None else ('trace failed: %s' % tstat.get(n_), {})
                 if gv == 'same' and int(gd.get('cert', '0')) > 0:
                     ck.count('replay_tie_certified'); ck.count('replay_tie_certified_steps', int(gd['cert']))
                     tie_div[c['routine']] = tie_div.get(c['routine'], 0) + 1
@@ -1077,7 +1106,7 @@ def run_check(ck, preds):
             # rule (first maximum) itself no longer matches
             for rt, dv in sorted(tie_div.items()):
                 tot = dv + tie_ok.get(rt, 0)
-                if dv >= 6 and dv > 0.15 * tot:
+                if dv >= 10 and dv > 0.15 * tot:
                     nr += 1
                     ck.corr_break('Modularity replay: bct.%s breaks exact ties differently from first-maximum in %d of %d tied runs' % (rt, dv, tot), {})
             ck.cov['traces_validated_against_impl'] = agree
